@@ -375,6 +375,11 @@ func wrap(value string) string {
 }
 
 func canEqual(tt types.Type) bool {
+	if named, isNamed := tt.(*types.Named); isNamed && equalMethodInputParam(named) != nil {
+		// a type that declares its own Equal method is compared with that method,
+		// also when it is an element of an array or a field of a struct that == could compare.
+		return false
+	}
 	t := tt.Underlying()
 	switch typ := t.(type) {
 	case *types.Basic:
